@@ -90,15 +90,17 @@ def detect(sid, props, tier):
     try:
         for p in props:
             t0 = time.time()
-            rc, out = sh(["./check", p, "--tier", tier], "/verif", timeout=14400)
+            root = os.environ.get("VERIF_ROOT", "/verif")
+            tag = os.environ.get("VERIF_TAG", "")
+            rc, out = sh(["./check", p, "--tier", tier], root, timeout=14400)
             sigs = sorted(set(re.findall(r"^   sig: (.*)$", out, flags=re.M)))
-            results[f"{p}:{tier}"] = {"exit": rc, "detected": rc == 1, "sigs": sigs[:6], "wall_s": round(time.time() - t0, 1)}
+            results[f"{p}:{tier}{tag}"] = {"exit": rc, "detected": rc == 1, "sigs": sigs[:6], "wall_s": round(time.time() - t0, 1)}
             print(f"{sid} {p} {tier}: exit={rc} detected={rc == 1} sigs={sigs[:3]}")
     finally:
         sh(["git", "checkout", "--", "."], "/repo")
         # evidence files of the mutated run are not evidence: restore the committed ones
-        sh(["git", "checkout", "--", "evidence"], "/verif")
-        shutil.rmtree("/verif/replay", ignore_errors=True)
+        sh(["git", "checkout", "--", "evidence"], os.environ.get("VERIF_ROOT", "/verif"))
+        shutil.rmtree(os.path.join(os.environ.get("VERIF_ROOT", "/verif"), "replay"), ignore_errors=True)
     meta["detection"] = results
     json.dump(meta, open(os.path.join(d, "meta.json"), "w"), indent=1)
 
